@@ -185,6 +185,19 @@ def _recursion(chk, ctx, pr) -> None:
             ok = len(vals) == 3 and vals[0] == T.spec(f'rank_order[{hi}]') and vals[1] == ('name', loopv)
     chk.ob('C18.recursion', 'analysis.__parse_range.iterate_plus:kicker_range', ok, pr.loc,
            'XY+ keeps the higher rank and lets the lower one range from itself up to just below the higher one')
+    pair_arm = [n for n in ast.walk(ip) if isinstance(n, ast.If) and T.cond(n.test) in (T.spec('r0 == r1', boolean=True), T.spec('r0 != r1', boolean=True))]
+    ok = False
+    if len(pair_arm) == 1:
+        body = pair_arm[0].body if T.cond(pair_arm[0].test) == T.spec('r0 == r1', boolean=True) else pair_arm[0].orelse
+        tops = [s2 for s2 in body if isinstance(s2, ast.Assign) and ctx.m.eq(T.norm(s2.value), 'rank_order[-1]', fn=ip)]
+        ys = [n for s2 in body for n in ast.walk(s2) if isinstance(n, ast.YieldFrom)]
+        if len(tops) == 1 and len(ys) == 1 and isinstance(ys[0].value, ast.Call) and isinstance(ys[0].value.args[0], ast.JoinedStr):
+            top = tops[0].targets[0].id
+            js = ys[0].value.args[0]
+            shape = [('v', ast.unparse(v.value)) if isinstance(v, ast.FormattedValue) else ('c', v.value) for v in js.values]
+            ok = shape == [('v', 'r0'), ('v', 'r1'), ('v', 's'), ('c', '-'), ('v', top), ('v', top), ('v', 's')]
+    chk.ob('C18.recursion', 'analysis.__parse_range.iterate_plus:pairs', ok, pr.loc,
+           'XX+ denotes the pairs from XX up to the highest rank of the rank order (XX-AA)')
     ii = next(n for n in pr.node.body if isinstance(n, ast.FunctionDef) and n.name == 'iterate_interval')
     fors = [n for n in ast.walk(ii) if isinstance(n, ast.For)]
     ok = False
